@@ -526,7 +526,7 @@ def rule_L(ctx):
             val = T.isLeapYear(y)
         except orders.Unsupported as e:
             raise shape_error('isLeapYear not interpretable: %s' % e, func.loc())
-        except (IndexError, KeyError, TypeError, ZeroDivisionError, AttributeError, orders.Raised) as e:
+        except orders.PROGRAM_ERRORS as e:
             val = '%s: %s' % (type(e).__name__, e)
         want = (y % 4 == 0) and (y % 100 != 0 or y % 400 == 0)
         if (val is not True and val is not False and not hasattr(type(val), 'dtype')) or bool(val) != want:
@@ -893,7 +893,7 @@ def rule_B(ctx):
                     r = T(*st).call(name, nb)
                 except orders.Unsupported as ex:
                     raise shape_error('ObsTime.%s not interpretable: %s' % (name, ex), f.loc())
-                except (IndexError, KeyError, TypeError, ZeroDivisionError, ValueError, orders.Raised) as ex:
+                except orders.PROGRAM_ERRORS as ex:
                     r = '%s: %s' % (type(ex).__name__, ex)
                 want = t0 + nb * u
                 ok = isinstance(r, orders.Obj)
